@@ -9,7 +9,7 @@ THEOREMS = [("FlatModel.Props.C09", t) for t in ("FC.C10.reserveItems_invisible"
                                                   "FC.C10.stack_withCapacity_default", "FC.C02.frame_reserve", "FC.reach_inv")]
 THEOREMS += [("FlatModel.Props.UniverseOps", "FC.Universe." + t) for t in ("C10_every_composition", "C10_merge_every_composition", "C10_merged_empty", "C10_stack_every_composition", "huffman_not_lawfulMerge", "huffmanU8_not_lawfulMerge")]
 LEAN_TARGETS = ["FlatModel.Generated.Covered", "FlatModel.Generated.CoveredOps", "FlatModel.Generated.CoveredUniverseOps"]
-PROFILES = {"quick": ["checked"], "thorough": ["checked", "wrapping"], "search": ["checked"]}
+PROFILES = {"quick": ["checked", "wrapping"], "thorough": ["checked", "wrapping"], "search": ["checked"]}
 RULE = ("twin runs: the same pushes with and without interleaved reserve_items / reserve_regions / FlatStack::reserve / "
         "with_capacity calls (arbitrary, also wrong, announcements), indices and reads compared step by step; merge_regions / "
         "merge_capacity over 0..3 source regions with arbitrary histories (including the target's own ancestors), the merged "
@@ -54,7 +54,7 @@ def prehistory_reserve_only(b, name, rng):
         forms = [f for f in b.cat["reserve_forms"] if f not in b.cat["array_forms"]]
         if forms:
             vs = [b.value() for _ in range(1 + rng.below(4))]
-            b.raw("reserve_items %s %s [%s]" % (name, rng.pick(forms), ",".join(b.r(v) for v in vs)), ("eq", "ok"), shape="rsvi")
+            b.raw("reserve_items %s %s [%s]" % (name, rng.pick(forms) + ("~" if rng.below(2) else ""), ",".join(b.r(v) for v in vs)), ("eq", "ok"), shape="rsvi")
     elif b.cat["caps"]["reserve_regions"]:
         cands = ["o"] + ([name] if b.cat["caps"]["clone"] else [])
         srcs = [rng.pick(cands) for _ in range(1 + rng.below(2))]
